@@ -21,7 +21,9 @@ Seeds == <<"{\"", "{\"}", "{\"a\":1}", "{\"¬}", "{\"a\\n\":\"¬¬\"}", "{\"\n}"
 Others == <<":a", ":a-b", ":a1", ":+", ":", "a", "a-b", "a1", "+", "->", "*x*", "nil?", "-", "-a", "<=", "&", "0", "1", "-1",
             "12345", "-30000", "nil", "true", "false", "()", "[]", "{}", "#{}", "(1 2)", "[1 [2 3]]", "(a (b) [c])",
             "{:a 1}", "{\"k\" {:b nil}}", "{:a [1 {:b 2}] \"s\" (3)}", "#{:a}", "#{\"a\" :a}", "[#{:k} {:k #{\"v\"}}]",
-            "(quote a)", "(nil true false)", "[\"\" \"a\" :a a]">>
+            "(quote a)", "(nil true false)", "[\"\" \"a\" :a a]",
+            \* integers beyond 32 bits (carried as text by the specification)
+            "1000000000", "-1000000000", "9007199254740993", "-170000000000000001", "[4294967296 {:n 999999999999999999}]">>
 
 RECURSIVE Pow(_, _), TextOf(_, _)
 Pow(b, e) == IF e = 0 THEN 1 ELSE b * Pow(b, e - 1)
